@@ -20,8 +20,8 @@ pub fn def() -> PropDef {
     panic_policy: PanicPolicy::Count,
     rule: "random ASCII generated texts with consistent outer maps (1-3 sources, one of them the inner source name, pointing at real positions of the original text), consistent inner maps over the original text, original_source supplied or taken from the outer sourcesContent, remove_original_source in {true,false}, columns in {true,false}; map() of the SourceMapSource is decoded independently and compared per character with a reference composition over the decoded outer and inner maps; non-trivial = >= 1 character composed through the inner map and >= 1 character that falls back or passes through; distinct = case fingerprint",
     cases: |t| match t {
-      Tier::Quick => 30_000,
-      Tier::Thorough => 500_000,
+      Tier::Quick => 150_000,
+      Tier::Thorough => 2_000_000,
     },
   }
 }
